@@ -913,3 +913,131 @@ Proof.
   exists sp, eouts, h, fs.
   split; [assumption|split; [assumption|split; [assumption|eapply R_observables; eassumption]]].
 Qed.
+
+(* ------------------------------------------------------------------ a failing insert changes nothing *)
+Lemma insert_direct_full cap h d :
+  cap (db_size (h_blk h)) < db_free (h_blk h) + len d -> insert_direct cap h d = (h, Err).
+Proof.
+  intros. unfold insert_direct. destruct (N.ltb_spec (cap (db_size (h_blk h))) (db_free (h_blk h) + len d)); [reflexivity|lia].
+Qed.
+
+Lemma insert_err_unchanged cap h d pick :
+  h_ind h = None -> h_others h = [] ->
+  snd (insert cap h d pick) = Err ->
+  fst (insert cap h d pick) = h /\ (len d = 0 \/ MAX_OBJ < len d).
+Proof.
+  intros Hi Ho. unfold insert.
+  destruct (N.eqb_spec (len d) 0). { intros _. cbn [fst]. auto. }
+  destruct (N.ltb_spec MAX_OBJ (len d)). { intros _. cbn [fst]. auto. }
+  unfold needs_transition. rewrite Hi.
+  destruct (db_free (h_blk h) + len d <=? cap (db_size (h_blk h))) eqn:Efit; cbn [negb].
+  - rewrite Hi. unfold insert_direct. apply N.leb_le in Efit.
+    destruct (N.ltb_spec (cap (db_size (h_blk h))) (db_free (h_blk h) + len d)); [lia|]. cbv zeta. cbn [snd]. intros X; discriminate X.
+  - cbn [transition h_ind]. unfold insert_indirect.
+    assert (Hv : blocks_view (transition h) = [(db_boff (h_blk h), h_blk h)]).
+    { unfold blocks_view. cbn [transition h_ind h_blk h_others]. rewrite Ho. reflexivity. }
+    rewrite Hv. cbn [filter]. unfold fits. cbn [snd]. rewrite Efit.
+    cbn [length Nat.max]. rewrite Nat.mod_1_r. cbn [nth_error].
+    cbn [transition h_ind].
+    change (len (zeros (1 * TABLE_WIDTH)) <=? len [(db_boff (h_blk h), h_blk h)]) with false.
+    cbv iota zeta. cbn [snd]. intros X; discriminate X.
+Qed.
+
+(* ------------------------------------------------------------------ no stored byte is lost on write-out *)
+Lemma block_bytes bs h fs sp id d :
+  bs_ok bs = true -> R bs h fs sp -> lookup id (sp_live sp) = Some d ->
+  slice (encode_dblock (h_blk h)) (PREFIX + id_off id) (len d) = d.
+Proof.
+  intros Hbs HR Hl. pose proof (bs_ok_bounds bs Hbs) as [[Hb1 Hb2] Hcap].
+  destruct (R_entry _ _ _ _ _ _ Hbs HR Hl) as ((A & B & C & D) & Ho & Hn & Hp).
+  unfold eoff, elen in *. cbn [fst snd] in *. destruct HR.
+  destruct (encode_dblock_shape (h_blk h)) as [c Hs]; [lia|lia|]. rewrite Hs, R_size0.
+  set (objs := db_objs (h_blk h)) in *.
+  rewrite (app_assoc (SIG_FHDB ++ [0])). rewrite (app_assoc ((SIG_FHDB ++ [0]) ++ _)).
+  rewrite slice_app_r by (unfold PREFIX; change (len _) with 15; lia).
+  change (len (((SIG_FHDB ++ [0]) ++ le 8 (db_hdraddr (h_blk h))) ++ le 2 (db_boff (h_blk h)))) with 15.
+  unfold PREFIX. replace (15 + id_off id - 15) with (id_off id) by lia.
+  rewrite slice_app_l by (rewrite len_app, len_zeros; lia).
+  rewrite slice_app_l by lia. assumption.
+Qed.
+
+Lemma no_byte_lost bs hist :
+  bs_ok bs = true -> one_block bs hist = true -> targets_live bs hist = true ->
+  exists sp eouts h fs,
+    spec_run bs spec0 hist = Some (sp, eouts)
+    /\ run cap_new bs (new_heap bs, fs0) hist = (h, fs, eouts)
+    /\ forall id d, lookup id (sp_live sp) = Some d ->
+         slice (encode_dblock (h_blk h)) (PREFIX + id_off id) (len d) = d.
+Proof.
+  intros Hbs H1 H2. destruct (refines bs hist Hbs H1 H2) as (sp & eouts & h & fs & Hs & Hr & HR & _).
+  exists sp, eouts, h, fs. split; [assumption|split; [assumption|]].
+  intros. eapply block_bytes; eassumption.
+Qed.
+
+(* ------------------------------------------------------------------ persistence *)
+Lemma persist bs hist :
+  bs_ok bs = true -> one_block bs hist = true -> targets_live bs hist = true ->
+  exists sp eouts h fs,
+    spec_run bs spec0 hist = Some (sp, eouts)
+    /\ run cap_new bs (new_heap bs, fs0) hist = (h, fs, eouts)
+    /\ exists h1 fs1 ha h2,
+         store h fs = (h1, fs1, ha) /\ load bs (f_bytes fs1) ha = Ok h2
+         /\ observables bs h2 sp
+         /\ h_nobj h2 = h_nobj h /\ h_free h2 = h_free h /\ h_manoff h2 = h_manoff h
+         /\ db_free (h_blk h2) = db_free (h_blk h)
+         /\ (forall id d, lookup id (sp_live sp) = Some d -> get h2 id = get h id).
+Proof.
+  intros Hbs H1 H2. destruct (refines bs hist Hbs H1 H2) as (sp & eouts & h & fs & Hs & Hr & HR & Hobs).
+  exists sp, eouts, h, fs. split; [assumption|split; [assumption|]].
+  destruct (store_files bs h fs sp HR) as [nx Hst].
+  eexists _, _, _, (reloaded bs h). split; [exact Hst|]. cbn [f_bytes].
+  split. { apply (load_after_store bs h fs sp); assumption. }
+  pose proof (R_reloaded bs h fs fs sp Hbs HR) as HR2.
+  split. { eapply R_observables; eassumption. }
+  split; [reflexivity|]. split; [reflexivity|]. split; [reflexivity|].
+  split. { destruct HR. unfold reloaded. cbn [h_blk db_free]. congruence. }
+  intros id d Hl. rewrite (get_R bs _ fs sp id d Hbs HR2 Hl).
+  symmetry. destruct Hobs as [Hg _]. apply Hg. assumption.
+Qed.
+
+(* store + load anywhere in a history: the specification ignores it, hence so does every later answer *)
+Lemma spec_run_app bs a b sp :
+  spec_run bs sp (a ++ b) =
+  match spec_run bs sp a with
+  | None => None
+  | Some (sp1, xs) => match spec_run bs sp1 b with None => None | Some (sp2, ys) => Some (sp2, xs ++ ys) end
+  end.
+Proof.
+  revert sp. induction a as [|o a IH]; intros sp; cbn [app spec_run].
+  - destruct (spec_run bs sp b) as [[? ?]|]; reflexivity.
+  - destruct (spec_step bs sp o) as [[sp1 x]|]; [|reflexivity]. rewrite IH.
+    destruct (spec_run bs sp1 a) as [[sp2 xs]|]; [|reflexivity].
+    destruct (spec_run bs sp2 b) as [[sp3 ys]|]; reflexivity.
+Qed.
+
+Lemma persist_commutes bs pre post sp eouts :
+  bs_ok bs = true -> spec_run bs spec0 (pre ++ post) = Some (sp, eouts) ->
+  exists xs ys h fs h' fs',
+    eouts = xs ++ ys /\ length xs = length pre
+    /\ run cap_new bs (new_heap bs, fs0) (pre ++ post) = (h, fs, xs ++ ys)
+    /\ run cap_new bs (new_heap bs, fs0) (pre ++ SL :: post) = (h', fs', xs ++ OUnit :: ys)
+    /\ observables bs h sp /\ observables bs h' sp.
+Proof.
+  intros Hbs Hs. rewrite spec_run_app in Hs.
+  destruct (spec_run bs spec0 pre) as [[sp1 xs]|] eqn:E1; [|discriminate].
+  destruct (spec_run bs sp1 post) as [[sp2 ys]|] eqn:E2; [|discriminate]. injection Hs as <- <-.
+  assert (Hs1 : spec_run bs spec0 (pre ++ post) = Some (sp2, xs ++ ys)) by (rewrite spec_run_app, E1, E2; reflexivity).
+  assert (Hs2 : spec_run bs spec0 (pre ++ SL :: post) = Some (sp2, xs ++ OUnit :: ys)).
+  { rewrite spec_run_app, E1. cbn [spec_run spec_step]. rewrite E2. reflexivity. }
+  destruct (run_refines bs _ _ _ _ _ _ Hbs (R_new bs Hbs) Hs1) as (h & fs & Hr1 & HR1).
+  destruct (run_refines bs _ _ _ _ _ _ Hbs (R_new bs Hbs) Hs2) as (h' & fs' & Hr2 & HR2).
+  exists xs, ys, h, fs, h', fs'. split; [reflexivity|]. split.
+  { clear - E1. revert E1. generalize spec0. revert xs sp1.
+    induction pre as [|o pre IH]; intros xs sp1 s E1; cbn [spec_run] in E1.
+    - injection E1 as <- <-. reflexivity.
+    - destruct (spec_step bs s o) as [[s1 x]|]; [|discriminate].
+      destruct (spec_run bs s1 pre) as [[s2 zs]|] eqn:E; [|discriminate]. injection E1 as <- <-.
+      cbn [length]. f_equal. eapply IH. eassumption. }
+  split; [assumption|]. split; [assumption|].
+  split; eapply R_observables; eassumption.
+Qed.
